@@ -457,7 +457,7 @@ Section Bal.
     let E := fresh "E" in
     match goal with |- context [pfirst R ?name q ?cs] =>
       pose proof (pfirst_inv R name cs IHc Hcs q Hq) as I;
-      destruct (pfirst R name q cs) as [q1 o] eqn:E; cbn [fst snd] in I; clear E
+      destruct (pfirst R name q cs) as [q1 o] eqn:E; cbn [fst snd] in I |- *; clear E
     end.
 
   Lemma opt_piece q0 q1 x sub : nb_str x = true -> visible T (hd 0 x) = true -> x <> [] ->
@@ -541,7 +541,7 @@ Section Bal.
     { step_first R IHc Hcs q Hq q1 deg0 I1. step_first R IHc Hcs q1 (Inv_pend _ _ _ I1) q2 content I2.
       pose proof (DS_strip _ _ _ (Inv_DS _ _ _ I1)) as Dd.
       destruct (mem_str (chars (strip_l T content)) (open_brackets T)) eqn:Ek.
-      - destruct (key_len _ _ _ I2 Ek) as [Hl Hs]. fold (closer T (chars (strip_l T content))).
+      - cbn [fst snd]. destruct (key_len _ _ _ I2 Ek) as [Hl Hs]. fold (closer T (chars (strip_l T content))).
         split; [|split].
         + unfold push. cbn [pend_stack fixed set_pend pend]. simpl. rewrite Hs. apply (Inv_pend _ _ _ I2).
         + destruct (nonempty (strip_l T deg0)); rewrite ?chars_app, ?chars_lit; apply (lone_wit [] 92); apply vis92.
@@ -551,7 +551,7 @@ Section Bal.
             eapply DS_app; [exact Dd|]. apply (DS_lit0 _ 1); reflexivity.
           * apply nonempty_false in En. rewrite (ws_same_len _ _ _ I1 En).
             apply (DS_lit0 _ 1); reflexivity.
-      - split; [apply (Inv_pend _ _ _ I2)|].
+      - cbn [fst snd]. split; [apply (Inv_pend _ _ _ I2)|].
         destruct (nonempty (strip_l T deg0)) eqn:En; rewrite ?chars_app, ?chars_lit.
         + split; [apply (lone_wit [] 92); apply vis92|].
           eapply DS_app; [apply (DS_lit0 _ 0); reflexivity|].
@@ -608,7 +608,6 @@ Section Bal.
         - rewrite chars_app, chars_lit. eapply DS_app; [apply DS_nb; reflexivity|].
           apply DS_strip. apply (Inv_DS _ _ _ I1).
         - rewrite chars_lit. destruct wf_parts as (_ & _ & _ & Hf & _).
-          pose proof (table_value (fun v => value_ok T v) _ _ _ (proj1 (forallb_forall _ _) (fun x Hx => proj1 (proj1 (andb_true_iff _ _) (proj1 (forallb_forall _ _) Hf x Hx))) |> fun _ => eq_refl) Ev) as _ || idtac.
           apply assoc_In in Ev. rewrite forallb_forall in Hf. specialize (Hf _ Ev). simpl in Hf.
           apply andb_true_iff in Hf as [Hv Hk].
           destruct (strip_decomp T fname) as (a & b & E & Ha & Hb).
@@ -651,3 +650,328 @@ Section Bal.
     apply peach_inv; assumption.
   Qed.
 End Bal.
+
+(* ------------------------------------------------------------------ balance of the whole conversion *)
+Lemma closers_DS (p : list str) : DS (List.length p) 0 (List.concat (map (fun _ => s "}") p)).
+Proof.
+  induction p as [|c p IH]; [apply DS_nil|].
+  cbn [map List.concat List.length].
+  apply (DS_app _ (List.length p) _ [125]); [apply DS_close | exact IH].
+Qed.
+
+Lemma convert_balanced T t o : wf T = true -> nobrace t = true ->
+  convert T fixed t = Ok o -> balanced (chars o) = true.
+Proof.
+  intros WF Hn. unfold convert, convert_l.
+  pose proof (peach_inv T (process T fixed) (ochildren t) (proj2 (process_inv T WF t))
+                (nobrace_children t Hn) st0 eq_refl) as I.
+  destruct (peach (process T fixed) st0 (ochildren t)) as [q o1]. cbn [fst snd] in I.
+  destruct (raised q); [discriminate|]. intro H. inversion H; subst o. clear H.
+  destruct I as (_ & _ & D). cbn [st0 pend List.length] in D.
+  assert (D2 : DS 0 0 (chars (o1 ++ lit (List.concat (map (fun _ => s "}") (pend q)))))).
+  { rewrite chars_app, chars_lit. eapply DS_app; [exact D | apply closers_DS]. }
+  specialize (D2 O). simpl in D2. unfold balanced. rewrite D2. reflexivity.
+Qed.
+
+(* ------------------------------------------------------------------ totality: the repaired converter never raises *)
+Section Total.
+  Variable T : tables.
+  Definition RInv (rec : st -> omml -> st * lstr) (c : omml) : Prop :=
+    forall q, raised (fst (rec q c)) = raised q.
+
+  Section Kids.
+    Variable rec : st -> omml -> st * lstr.
+    Lemma pfirst_r name l : Forall (RInv rec) l -> forall q, raised (fst (pfirst rec name q l)) = raised q.
+    Proof.
+      induction l as [|c r IH]; intros HF q; simpl; [reflexivity|]. inversion HF; subst.
+      destruct (str_eqb (otag c) name); [apply H1 | apply IH; assumption].
+    Qed.
+    Lemma peach_r l : Forall (RInv rec) l -> forall q, raised (fst (peach rec q l)) = raised q.
+    Proof.
+      induction l as [|c r IH]; intros HF q; simpl; [reflexivity|]. inversion HF as [|? ? Hc Hr]; subst.
+      specialize (Hc q). destruct (rec q c) as [q1 o]. specialize (IH Hr q1).
+      destruct (peach rec q1 r) as [q2 os]. cbn [fst snd] in *. congruence.
+    Qed.
+    Lemma pall_r name l : Forall (RInv rec) l -> forall q, raised (fst (pall rec name q l)) = raised q.
+    Proof.
+      induction l as [|c r IH]; intros HF q; simpl; [reflexivity|]. inversion HF as [|? ? Hc Hr]; subst.
+      destruct (str_eqb (otag c) name); [|apply IH; assumption].
+      specialize (Hc q). destruct (rec q c) as [q1 o]. specialize (IH Hr q1).
+      destruct (pall rec name q1 r) as [q2 os]. cbn [fst snd] in *. congruence.
+    Qed.
+    Lemma prows_r mr e l : Forall (fun c => Forall (RInv rec) (ochildren c)) l ->
+      forall q, raised (fst (prows rec mr e q l)) = raised q.
+    Proof.
+      induction l as [|c r IH]; intros HF q; simpl; [reflexivity|]. inversion HF as [|? ? Hc Hr]; subst.
+      destruct (str_eqb (otag c) mr); [|apply IH; assumption].
+      pose proof (pall_r e (ochildren c) Hc q) as H1. destruct (pall rec e q (ochildren c)) as [q1 cells].
+      specialize (IH Hr q1). destruct (prows rec mr e q1 r) as [q2 rows]. cbn [fst snd] in *. congruence.
+    Qed.
+  End Kids.
+
+  Lemma chr_val_some pr name dflt cs : exists v, chr_val T fixed dflt (lookup_chr T fixed pr name cs) = Some v.
+  Proof.
+    unfold chr_val. cbn [val_default fixed]. destruct (lookup_chr T fixed pr name cs) as [e|]; [|eauto].
+    destruct (assoc (m_ns T ++ s "val") (oattrs e)); eauto.
+  Qed.
+
+  Lemma process_raised : forall t,
+    RInv (process T fixed) t /\ Forall (RInv (process T fixed)) (ochildren t).
+  Proof.
+    apply omml_ind'. intros tag attrs text cs IH.
+    assert (IHc : Forall (RInv (process T fixed)) cs).
+    { eapply Forall_impl; [|exact IH]. intros a [Ha _]. exact Ha. }
+    assert (IHg : Forall (fun c => Forall (RInv (process T fixed)) (ochildren c)) cs).
+    { eapply Forall_impl; [|exact IH]. intros a [_ Ha]. exact Ha. }
+    split; [|exact IHc]. clear IH. intro q.
+    cbn [process pend_stack own_prop val_default fixed].
+    set (R := process T fixed) in *.
+    destruct (chr_val_some (s "naryPr") (s "chr") sum_char cs) as [v Hv]. rewrite Hv. clear Hv.
+    repeat match goal with
+           | |- context [if ?c then _ else _] =>
+             match c with
+             | context [pfirst] => fail 1
+             | _ => destruct c
+             end
+           end;
+    repeat match goal with
+           | |- context [pfirst R ?n ?q0 cs] =>
+             let H := fresh "H" in pose proof (pfirst_r R n cs IHc q0) as H;
+             destruct (pfirst R n q0 cs) as [? ?]; cbn [fst snd] in H |- *
+           | |- context [pall R ?n ?q0 cs] =>
+             let H := fresh "H" in pose proof (pall_r R n cs IHc q0) as H;
+             destruct (pall R n q0 cs) as [? ?]; cbn [fst snd] in H |- *
+           | |- context [prows R ?a ?b ?q0 cs] =>
+             let H := fresh "H" in pose proof (prows_r R a b cs IHg q0) as H;
+             destruct (prows R a b q0 cs) as [? ?]; cbn [fst snd] in H |- *
+           | |- context [close_pending ?p ?l] => destruct (close_pending p l) as [? ?]; cbn [fst snd]
+           | |- context [if ?c then _ else _] => destruct c; cbn [fst snd]
+           end;
+    cbn [fst snd push set_pend raised]; try congruence; try (apply peach_r; assumption).
+  Qed.
+End Total.
+
+Lemma convert_total T t : exists o, convert T fixed t = Ok o.
+Proof.
+  unfold convert, convert_l.
+  pose proof (peach_r (process T fixed) (ochildren t) (proj2 (process_raised T t)) st0) as H.
+  destruct (peach (process T fixed) st0 (ochildren t)) as [q o]. cbn [fst snd st0 raised] in H.
+  rewrite H. eauto.
+Qed.
+
+(* ------------------------------------------------------------------ per-element forms *)
+Lemma pfirst_hit R name q c r : otag c = name -> pfirst R name q (c :: r) = R q c.
+Proof. intro H. simpl. rewrite H, str_eqb_refl. reflexivity. Qed.
+Lemma pfirst_miss R name q c r : otag c <> name -> pfirst R name q (c :: r) = pfirst R name q r.
+Proof. intro H. simpl. apply str_eqb_neq in H. rewrite H. reflexivity. Qed.
+Lemma ns_neq (p a b : str) : a <> b -> (p ++ a)%list <> (p ++ b)%list.
+Proof. intros H E. apply app_inv_head in E. contradiction. Qed.
+
+Lemma find2_none a b cs : forallb (fun c => negb (str_eqb (otag c) a)) cs = true -> find2 a b cs = None.
+Proof.
+  induction cs as [|c r IH]; simpl; [reflexivity|]. intro H. apply andb_true_iff in H as [Hc Hr].
+  apply negb_true_iff in Hc. rewrite Hc. apply IH. exact Hr.
+Qed.
+
+Ltac eval_tags :=
+  repeat match goal with
+         | |- context [str_eqb (s ?a) (s ?b)] =>
+           let v := eval vm_compute in (str_eqb (s a) (s b)) in change (str_eqb (s a) (s b)) with v
+         end; cbn beta iota; cbn [andb].
+
+Ltac tag_neq := apply ns_neq; vm_compute; discriminate.
+
+Ltac operands :=
+  repeat first
+    [ rewrite pfirst_hit by assumption
+    | rewrite pfirst_miss by (first [ congruence | cbn [otag]; tag_neq | match goal with H : otag ?c = _ |- otag ?c <> _ => rewrite H; tag_neq end ])
+    | match goal with |- context [process ?T ?V ?q ?n] => destruct (process T V q n) as [? ?] end ].
+
+Section Forms.
+  Variables (T : tables) (V : variant) (q : st) (tag : str) (attrs : list (str * str)) (text : option str).
+  Let M x := (m_ns T ++ s x)%list.
+  Let R := process T V.
+
+  Lemma form_frac n d :
+    local_name tag = s "f" -> mem_str (s "f") (skip_tags T) = false -> otag n = M "num" -> otag d = M "den" ->
+    process T V q (Node tag attrs text [n; d]) =
+    let (q1, a) := R q n in let (q2, b) := R q1 d in
+    (q2, lit (s "\frac{") ++ a ++ lit (s "}{") ++ b ++ lit (s "}")).
+  Proof. intros Hl Hs Hn Hd. subst M R. cbv beta in *. cbn [process]. rewrite Hl, Hs. eval_tags. operands. reflexivity. Qed.
+
+  Lemma form_sSup e p :
+    local_name tag = s "sSup" -> mem_str (s "sSup") (skip_tags T) = false -> otag e = M "e" -> otag p = M "sup" ->
+    process T V q (Node tag attrs text [e; p]) =
+    let (q1, a) := R q e in let (q2, b) := R q1 p in (q2, a ++ lit (s "^{") ++ b ++ lit (s "}")).
+  Proof. intros Hl Hs Hn Hd. subst M R. cbv beta in *. cbn [process]. rewrite Hl, Hs. eval_tags. operands. reflexivity. Qed.
+
+  Lemma form_sSub e p :
+    local_name tag = s "sSub" -> mem_str (s "sSub") (skip_tags T) = false -> otag e = M "e" -> otag p = M "sub" ->
+    process T V q (Node tag attrs text [e; p]) =
+    let (q1, a) := R q e in let (q2, b) := R q1 p in (q2, a ++ lit (s "_{") ++ b ++ lit (s "}")).
+  Proof. intros Hl Hs Hn Hd. subst M R. cbv beta in *. cbn [process]. rewrite Hl, Hs. eval_tags. operands. reflexivity. Qed.
+
+  Lemma form_sSubSup e b p :
+    local_name tag = s "sSubSup" -> mem_str (s "sSubSup") (skip_tags T) = false ->
+    otag e = M "e" -> otag b = M "sub" -> otag p = M "sup" ->
+    process T V q (Node tag attrs text [e; b; p]) =
+    let (q1, x) := R q e in let (q2, y) := R q1 b in let (q3, z) := R q2 p in
+    (q3, x ++ lit (s "_{") ++ y ++ lit (s "}^{") ++ z ++ lit (s "}")).
+  Proof. intros Hl Hs He Hb Hp. subst M R. cbv beta in *. cbn [process]. rewrite Hl, Hs. eval_tags. operands. reflexivity. Qed.
+
+  Lemma form_bar e :
+    local_name tag = s "bar" -> mem_str (s "bar") (skip_tags T) = false -> otag e = M "e" ->
+    process T V q (Node tag attrs text [e]) =
+    let (q1, a) := R q e in (q1, lit (s "\overline{") ++ a ++ lit (s "}")).
+  Proof. intros Hl Hs He. subst M R. cbv beta in *. cbn [process]. rewrite Hl, Hs. eval_tags. operands. reflexivity. Qed.
+
+  Lemma form_func f e :
+    local_name tag = s "func" -> mem_str (s "func") (skip_tags T) = false -> otag f = M "fName" -> otag e = M "e" ->
+    process T V q (Node tag attrs text [f; e]) =
+    let (q1, name) := R q f in let (q2, a) := R q1 e in
+    let key := strip_l T name in
+    (q2, match assoc (chars key) (func_map T) with
+         | Some v => if str_eqb v (92 :: chars key) then lit [92] ++ key else lit v
+         | None => name
+         end ++ lit (s "{") ++ a ++ lit (s "}")).
+  Proof.
+    intros Hl Hs Hf He. subst M R. cbv beta in *. cbn [process]. rewrite Hl, Hs. eval_tags. operands.
+    destruct (process T V q f) as [q1 name]. destruct (process T V q1 e) as [q2 a]. reflexivity.
+  Qed.
+End Forms.
+
+Section FormsFixed.
+  Variables (T : tables) (q : st) (tag : str) (attrs : list (str * str)) (text : option str).
+  Let M x := (m_ns T ++ s x)%list.
+  Let R := process T fixed.
+
+  (* radical: degree first, then the radicand; \sqrt[deg]{e} / \sqrt{e}; the lone-bracket form opens a pending radical *)
+  Lemma form_rad g e :
+    local_name tag = s "rad" -> mem_str (s "rad") (skip_tags T) = false -> otag g = M "deg" -> otag e = M "e" ->
+    process T fixed q (Node tag attrs text [g; e]) =
+    let (q1, d0) := R q g in let (q2, c) := R q1 e in
+    let d := strip_l T d0 in
+    let key := chars (strip_l T c) in
+    if mem_str key (open_brackets T)
+    then (set_pend (closer T key :: pend q2) q2,
+          if nonempty d then lit (s "\sqrt[") ++ d ++ lit (s "]{") else lit (s "\sqrt{"))
+    else (q2, if nonempty d then lit (s "\sqrt[") ++ d ++ lit (s "]{") ++ c ++ lit (s "}")
+              else lit (s "\sqrt{") ++ c ++ lit (s "}")).
+  Proof.
+    intros Hl Hs Hg He. subst M R. cbv beta in *. cbn [process pend_stack fixed]. rewrite Hl, Hs. eval_tags. operands.
+    destruct (process T fixed q g) as [q1 d0]. destruct (process T fixed q1 e) as [q2 c]. reflexivity.
+  Qed.
+
+  Definition nary_op (o : str) : lstr :=
+    match assoc o (op_map T) with Some v => lab OAttr v | None => greek_l T OAttr o end.
+
+  (* n-ary with its own naryPr/chr m:val = o : op_{sub}^{sup} e, limits omitted when blank *)
+  Lemma form_nary pa ca ct cc o b p e :
+    local_name tag = s "nary" -> mem_str (s "nary") (skip_tags T) = false ->
+    otag b = M "sub" -> otag p = M "sup" -> otag e = M "e" ->
+    assoc (M "val") ca = Some o ->
+    process T fixed q (Node tag attrs text [Node (M "naryPr") pa None [Node (M "chr") ca ct cc]; b; p; e]) =
+    let (q1, x) := R q b in let (q2, y) := R q1 p in let (q3, z) := R q2 e in
+    (q3, nary_op o
+         ++ (if nonempty (strip_l T x) then lit (s "_{") ++ x ++ lit (s "}") else [])
+         ++ (if nonempty (strip_l T y) then lit (s "^{") ++ y ++ lit (s "}") else [])
+         ++ lit (s " ") ++ z).
+  Proof.
+    intros Hl Hs Hb Hp He Ho. subst M R. cbv beta in *. cbn [process]. rewrite Hl, Hs. eval_tags.
+    unfold lookup_chr, chr_val. cbn [own_prop fixed find2 otag ochildren find_child oattrs].
+    rewrite !str_eqb_refl. cbn [oattrs]. rewrite Ho.
+    operands. reflexivity.
+  Qed.
+
+  (* operators come from the element's OWN property child: without one, the defaults are used whatever the
+     operands contain *)
+  Lemma own_nary cs :
+    local_name tag = s "nary" -> mem_str (s "nary") (skip_tags T) = false ->
+    forallb (fun c => negb (str_eqb (otag c) (M "naryPr"))) cs = true ->
+    exists rest, snd (process T fixed q (Node tag attrs text cs)) = nary_op sum_char ++ rest.
+  Proof.
+    intros Hl Hs Hc. subst M R. cbv beta in *. cbn [process]. rewrite Hl, Hs. eval_tags.
+    unfold lookup_chr, chr_val. cbn [own_prop fixed]. rewrite (find2_none _ _ _ Hc).
+    destruct (pfirst (process T fixed) (m_ns T ++ s "sub") q cs) as [q1 x].
+    destruct (pfirst (process T fixed) (m_ns T ++ s "sup") q1 cs) as [q2 y].
+    destruct (pfirst (process T fixed) (m_ns T ++ s "e") q2 cs) as [q3 z].
+    cbn [snd]. eexists. reflexivity.
+  Qed.
+
+  Lemma own_delim cs :
+    local_name tag = s "d" -> mem_str (s "d") (skip_tags T) = false ->
+    forallb (fun c => negb (str_eqb (otag c) (M "dPr"))) cs = true ->
+    exists parts, snd (process T fixed q (Node tag attrs text cs)) =
+                  lab OAttr (s "(") ++ join (lit (s ", ")) parts ++ lab OAttr (s ")").
+  Proof.
+    intros Hl Hs Hc. subst M R. cbv beta in *. cbn [process]. rewrite Hl, Hs. eval_tags.
+    unfold lookup_chr, chr_val. cbn [own_prop fixed]. rewrite !(find2_none _ _ _ Hc).
+    destruct (pall (process T fixed) (m_ns T ++ s "e") q cs) as [q1 parts].
+    cbn [snd fmt_opt]. eexists. reflexivity.
+  Qed.
+
+  Lemma own_acc cs :
+    local_name tag = s "acc" -> mem_str (s "acc") (skip_tags T) = false ->
+    mem_str (s "m") (skip_tags T) = false ->
+    forallb (fun c => negb (str_eqb (otag c) (M "accPr"))) cs = true ->
+    exists a, snd (process T fixed q (Node tag attrs text cs)) =
+              lab OAttr (match assoc (s "^") (accent_map T) with Some v => v | None => hat end)
+              ++ lit (s "{") ++ a ++ lit (s "}").
+  Proof.
+    intros Hl Hs _ Hc. subst M R. cbv beta in *. cbn [process]. rewrite Hl, Hs. eval_tags.
+    unfold lookup_chr. cbn [own_prop fixed]. rewrite (find2_none _ _ _ Hc).
+    destruct (pfirst (process T fixed) (m_ns T ++ s "e") q cs) as [q1 a].
+    cbn [snd]. eexists. reflexivity.
+  Qed.
+
+  (* delimiter with explicit own characters and two operands: l e1, e2 r *)
+  Lemma form_delim pa ba bt bc l ea et ec r e1 e2 :
+    local_name tag = s "d" -> mem_str (s "d") (skip_tags T) = false ->
+    otag e1 = M "e" -> otag e2 = M "e" ->
+    assoc (M "val") ba = Some l -> assoc (M "val") ea = Some r ->
+    process T fixed q (Node tag attrs text
+       [Node (M "dPr") pa None [Node (M "begChr") ba bt bc; Node (M "endChr") ea et ec]; e1; e2]) =
+    let (q1, x) := R q e1 in let (q2, y) := R q1 e2 in
+    (q2, lab OAttr l ++ (x ++ lit (s ", ") ++ y) ++ lab OAttr r).
+  Proof.
+    intros Hl Hs H1 H2 Hb He. subst M R. cbv beta in *. cbn [process]. rewrite Hl, Hs. eval_tags.
+    unfold lookup_chr, chr_val. cbn [own_prop fixed find2 otag ochildren find_child oattrs].
+    rewrite !str_eqb_refl.
+    assert (N0 : str_eqb (m_ns T ++ s "begChr") (m_ns T ++ s "endChr") = false) by (apply str_eqb_neq; tag_neq).
+    rewrite N0. cbn [oattrs]. rewrite Hb, He.
+    assert (N1 : str_eqb (m_ns T ++ s "dPr") (m_ns T ++ s "e") = false) by (apply str_eqb_neq; tag_neq).
+    cbn [pall otag]. rewrite N1, H1, H2, !str_eqb_refl.
+    destruct (process T fixed q e1) as [q1 x]. destruct (process T fixed q1 e2) as [q2 y].
+    cbn [fmt_opt join]. reflexivity.
+  Qed.
+
+  (* matrix with one row of two cells *)
+  Lemma form_matrix ra rt c1 c2 :
+    local_name tag = s "m" -> mem_str (s "m") (skip_tags T) = false ->
+    otag c1 = M "e" -> otag c2 = M "e" ->
+    process T fixed q (Node tag attrs text [Node (M "mr") ra rt [c1; c2]]) =
+    let (q1, x) := R q c1 in let (q2, y) := R q1 c2 in
+    (q2, lit (s "\begin{matrix}") ++ (x ++ lit (s " & ") ++ y) ++ lit (s "\end{matrix}")).
+  Proof.
+    intros Hl Hs H1 H2. subst M R. cbv beta in *. cbn [process]. rewrite Hl, Hs. eval_tags.
+    cbn [filter otag]. rewrite !str_eqb_refl. cbn [nonempty andb prows otag ochildren pall].
+    rewrite !str_eqb_refl, H1, H2, !str_eqb_refl.
+    destruct (process T fixed q c1) as [q1 x]. destruct (process T fixed q1 c2) as [q2 y].
+    cbn [join]. reflexivity.
+  Qed.
+
+  (* accent with its own accPr/chr m:val = a *)
+  Lemma form_acc pa ca ct cc a e :
+    local_name tag = s "acc" -> mem_str (s "acc") (skip_tags T) = false ->
+    otag e = M "e" -> assoc (M "val") ca = Some a ->
+    process T fixed q (Node tag attrs text [Node (M "accPr") pa None [Node (M "chr") ca ct cc]; e]) =
+    let (q1, x) := R q e in
+    (q1, lab OAttr (match assoc a (accent_map T) with Some v => v | None => hat end)
+         ++ lit (s "{") ++ x ++ lit (s "}")).
+  Proof.
+    intros Hl Hs He Ha. subst M R. cbv beta in *. cbn [process]. rewrite Hl, Hs. eval_tags.
+    unfold lookup_chr. cbn [own_prop fixed find2 otag ochildren find_child oattrs].
+    rewrite !str_eqb_refl. cbn [oattrs]. rewrite Ha.
+    operands. reflexivity.
+  Qed.
+End FormsFixed.
